@@ -687,9 +687,15 @@ func (e *Env) eval(x ast.Expr) TV {
 				// implication); give an unconstrained element
 				w, _ := sym.IsByteLike(et)
 				if w == 0 {
-					bad("index of nil slice")
+					return TV{V: e.Fx.SymValue(e.state(), et, "nilelem", 0), T: et}
 				}
 				return TV{V: sym.Scalar{T: e.Fx.Cx.Fresh("nilelem", BV(w))}, T: et}
+			}
+			if as, ok := e.Fx.ReadLoc(e.state(), b.Obj, b.Path).(sym.ArrS); ok {
+				// element beyond a list of known length: outside the meaning of the clause, unconstrained
+				if i := Add(b.Off, idx); i.IsConst() && i.Val >= uint64(len(as.Elems)) {
+					return TV{V: e.Fx.SymValue(e.state(), et, "nilelem", 0), T: et}
+				}
 			}
 			p := sym.PtrV{Nil: False, Obj: b.Obj, Path: append(append(sym.Path(nil), b.Path...), sym.PathEl{Field: -1, Index: Add(b.Off, idx)})}
 			return TV{V: e.Fx.Load(e.state(), p, et), T: et}
